@@ -254,6 +254,18 @@ def ref_swap(g, cl, mode, w):
     return {tuple(sorted((cl - {o}) | {i})) for o, i in cand}
 
 
+def ref_search(g, cl, iterations, mode, w):
+    """all results of the documented local search: phases of growth and plateau search, each following the rule"""
+    results = set()
+    for grown in ref_grow(g, cl, mode, w):
+        for swapped in ref_swap(g, grown, mode, w):
+            if set(grown) == set(swapped) or iterations - 1 == 0:
+                results.add(tuple(sorted(swapped)))
+            else:
+                results |= ref_search(g, swapped, iterations - 1, mode, w)
+    return results
+
+
 def ref_shrink(g, sub, mode, w):
     results = set()
 
@@ -383,6 +395,14 @@ def check_graph_helpers():
                     if got != exp:
                         bad("-", f"clique.swap({list(s)}, edges={sorted(g.edges)}, node_select={sel}) can return {sorted(got)}, documented rule allows {sorted(exp)}")
                         return
+                    # the local search: every phase (not only the first) follows the selection rule
+                    for iters in (1, 2, 4):
+                        EVAL[0] += 1
+                        got = set(tuple(sorted(x)) for x in en.all_outcomes(lambda: clique.search(list(s), g, iters, node_select=sel)))
+                        exp = ref_search(g, s, iters, rmode, wd)
+                        if got != exp:
+                            bad("-", f"clique.search({list(s)}, edges={sorted(g.edges)}, iterations={iters}, node_select={sel}) can return {sorted(got)}, the documented phases allow {sorted(exp)}")
+                            return
                 if mode != "degree" and len(s) >= 1:
                     EVAL[0] += 1
                     got = set(tuple(x) for x in en.all_outcomes(lambda: clique.shrink(list(s), g, node_select=sel)))
